@@ -231,22 +231,30 @@ func describe(cfg hx.Config, hist []hx.Op, from int) (sigs, classes []string, ri
 		sig := cfg.Name + "|" + strings.Join(vis, ",") + "|" + shape + "|" + strings.Join(mem, ";")
 		nl0 := strings.Count(shape, "L0.")
 		l6 := strings.Contains(shape, "L6:")
-		nfiles := strings.Count(shape, "[")
-		del, rdel, mrg, ing := histKinds(hist[:i+1])
-		class := fmt.Sprintf("%s|mem=%v|l0=%d|l6=%v|files=%d|del=%v|rdel=%v|merge=%v|ingest=%v|vis=%d",
-			cfg.Name, len(mem) > 0, nl0, l6, min(nfiles, 4), del, rdel, mrg, ing, len(vis))
-		r := len(vis) + 2*nl0
-		if l6 {
-			r += 2
+		del, rdel, mrg, ing := histKinds(hist[from-1 : i+1])
+		// Features of the state; the class is their conjunction. The selection covers feature
+		// pairs (see discoverStates).
+		vb := "vis=0"
+		if len(vis) >= 3 {
+			vb = "vis>=3"
+		} else if len(vis) >= 1 {
+			vb = "vis=1..2"
 		}
+		feats := []string{vb, fmt.Sprintf("l0=%d", min(nl0, 3)), "last=" + op.K}
 		if len(mem) > 0 {
-			r += 2
+			feats = append(feats, "mem")
 		}
-		for _, b := range []bool{del, rdel, mrg, ing} {
+		if l6 {
+			feats = append(feats, "l6")
+		}
+		for name, b := range map[string]bool{"del": del, "rangedel": rdel, "merge": mrg, "ingest": ing} {
 			if b {
-				r += 2
+				feats = append(feats, name)
 			}
 		}
+		sort.Strings(feats)
+		class := strings.Join(feats, ",")
+		r := len(feats)
 		sigs = append(sigs, sig)
 		classes = append(classes, class)
 		rich = append(rich, r)
@@ -297,7 +305,6 @@ func discoverStates(c *vlib.Ctx, limit int) (picked []StateSpec, nHist, nDistinc
 	seen := map[string]bool{}
 	byClass := map[string][]candidate{}
 	var classOrder []string
-	classRich := map[string]int{}
 	order := 0
 	for i, r := range results {
 		if r.err != nil {
@@ -314,27 +321,63 @@ func discoverStates(c *vlib.Ctx, limit int) (picked []StateSpec, nHist, nDistinc
 			seen[r.sigs[s]] = true
 			h := append([]hx.Op{}, j.hist[:from+s+1]...)
 			cl := r.classes[s]
+			cl = j.b.name + "|" + cl
 			if _, ok := byClass[cl]; !ok {
 				classOrder = append(classOrder, cl)
-				classRich[cl] = r.rich[s]
 			}
 			byClass[cl] = append(byClass[cl], candidate{
 				spec:  StateSpec{Name: fmt.Sprintf("%s/%d", j.b.name, order), Hist: h},
 				order: order, sig: r.sigs[s], class: cl, rich: r.rich[s]})
 		}
 	}
-	sort.SliceStable(classOrder, func(a, b int) bool { return classRich[classOrder[a]] > classRich[classOrder[b]] })
-	for round := 0; len(picked) < limit; round++ {
-		any := false
-		for _, cl := range classOrder {
-			if round < len(byClass[cl]) && len(picked) < limit {
-				picked = append(picked, byClass[cl][round].spec)
-				any = true
+	// One candidate per class (its first history in enumeration order). Greedy pairwise coverage:
+	// repeatedly pick the candidate that covers the most not yet covered pairs of (base, feature)
+	// and (feature, feature); ties go to the earlier class. When nothing new can be covered the
+	// covered set is cleared and the selection continues with the remaining candidates.
+	type cand struct {
+		c     candidate
+		pairs []string
+	}
+	var pool []cand
+	for _, cl := range classOrder {
+		c0 := byClass[cl][0]
+		bf := strings.SplitN(cl, "|", 2)
+		fs := append([]string{"base=" + bf[0]}, strings.Split(bf[1], ",")...)
+		var ps []string
+		for a := 0; a < len(fs); a++ {
+			for b := a + 1; b < len(fs); b++ {
+				ps = append(ps, fs[a]+"&"+fs[b])
 			}
 		}
-		if !any {
-			break
+		pool = append(pool, cand{c0, ps})
+	}
+	covered := map[string]bool{}
+	used := make([]bool, len(pool))
+	for len(picked) < limit && len(picked) < len(pool) {
+		best, bestGain := -1, 0
+		for i, p := range pool {
+			if used[i] {
+				continue
+			}
+			g := 0
+			for _, x := range p.pairs {
+				if !covered[x] {
+					g++
+				}
+			}
+			if g > bestGain {
+				best, bestGain = i, g
+			}
 		}
+		if best < 0 {
+			covered = map[string]bool{}
+			continue
+		}
+		used[best] = true
+		for _, x := range pool[best].pairs {
+			covered[x] = true
+		}
+		picked = append(picked, pool[best].c.spec)
 	}
 	return picked, len(jobs), len(seen), len(classOrder)
 }
